@@ -20,6 +20,9 @@ theorem firstOr_none (e : Nat) : firstOr none e = some e := rfl
 theorem firstOr_of_ne_none (o : Option Nat) (e : Nat) (h : o ≠ none) : firstOr o e = o := by
   cases o <;> simp_all [firstOr]
 theorem firstOr_ne_none (o : Option Nat) (e : Nat) : firstOr o e ≠ none := by cases o <;> simp [firstOr]
+theorem firstOr_cases (o : Option Nat) (e : Nat) : firstOr o e = o ∨ firstOr o e = some e := by
+  cases o <;> simp [firstOr]
+theorem not_mem_snoc (l : List Nat) (e x : Nat) : x ∉ snoc l e ↔ (x ∉ l ∧ x ≠ e) := by simp [snoc]
 
 @[simp] theorem store_bc (sk : Skeleton) (s : State) (e : Nat) : (store sk s e).bc = s.bc := rfl
 @[simp] theorem store_calls (sk : Skeleton) (s : State) (e : Nat) : (store sk s e).calls = s.calls := rfl
@@ -92,9 +95,44 @@ theorem pi_step (sk : Skeleton) (ho : StoreFirst sk) {s s' : State} (a : Act)
   all_goals first
     | exact ⟨h1, h2, h3, h4, h5⟩
     | (refine ⟨?_, ?_, ?_, ?_, ?_⟩ <;> intros <;>
-    grind [upd_apply, eClosed, eLinkCtx, eMarshal, eDecode, eExt, snoc_ne_nil, head?_snoc, firstOr_of_ne_none, firstOr_none, List.head?_eq_none_iff])
+    grind [upd_apply, eClosed, eLinkCtx, eMarshal, eDecode, eCallCtx, eExt, snoc_ne_nil, head?_snoc, firstOr_of_ne_none, firstOr_none, List.head?_eq_none_iff])
+
+/-! ### only failures of the link reach `setErr`: a call's own context error never does -/
+
+/-- The stub turns EVERY error of `Receive` into `panic(err)` → `recover` → `setErr(err)`.  Under the
+    source fact that `Receive` fails only on a closed table (`sk.bcReceiveErrorsOnlyClosed`), the error of a
+    call's own context is never such a panic value: no stub panics with it, no `setErr` carries it, it is
+    never stored, and `Link` never reads or returns it. -/
+structure CX (s : State) : Prop where
+  pan  : ∀ c, (s.calls c).pc ≠ .panicking eCallCtx
+  out  : ∀ c, (s.calls c).outcome ≠ .failed eCallCtx
+  ent  : ∀ t, s.setters t ≠ .entered eCallCtx
+  sto  : ∀ t, s.setters t ≠ .stored eCallCtx
+  clf  : ∀ t, s.setters t ≠ .closedFirst eCallCtx
+  log  : eCallCtx ∉ s.fatalLog
+  slot : s.slot ≠ some eCallCtx
+  read : s.link ≠ .read (some eCallCtx)
+  ret  : s.link ≠ .returned (some eCallCtx)
+
+theorem cx_init : CX init := by constructor <;> simp [init, Call.none]
+
+theorem cx_step (sk : Skeleton) (ho : sk.bcReceiveErrorsOnlyClosed = true) {s s' : State} (a : Act)
+    (h : CX s) (hs : step sk s a = some s') : CX s' := by
+  obtain ⟨h1, h2, h3, h4, h5, h6, h7, h8, h9⟩ := h
+  cases a <;> simp only [step] at hs
+  all_goals (repeat' split at hs) <;> (try simp at hs) <;> (try subst hs)
+  all_goals try (have hrf := Bc.receive_not_refusedCtx sk ho (by assumption))
+  all_goals first
+    | exact ⟨h1, h2, h3, h4, h5, h6, h7, h8, h9⟩
+    | (refine ⟨?_, ?_, ?_, ?_, ?_, ?_, ?_, ?_, ?_⟩ <;> intros <;>
+    grind [upd_apply, eClosed, eLinkCtx, eMarshal, eDecode, eCallCtx, eExt, not_mem_snoc, firstOr_cases])
 
 /-! ### general lemmas: reachability → invariants -/
+
+theorem reach_cx (sk : Skeleton) (ho : sk.bcReceiveErrorsOnlyClosed = true) {s : State} (h : Reach sk s) : CX s := by
+  induction h with
+  | init => exact cx_init
+  | step a _ hs ih => exact cx_step sk ho a ih hs
 
 theorem reach_fi (sk : Skeleton) (hf : FirstOnly sk) {s : State} (h : Reach sk s) : FI s := by
   induction h with
